@@ -7,13 +7,13 @@ BASELINE = json.load(open('/root/.vp/BASELINE.json'))['cmd']
 
 # id -> (claimed?, level text, technique, design_ref)
 P = {
- "C01": ("one reported buffer: the words returned by doCheck are the words captured, persisted and replayed; every returned (buffer, error) pair was established by executing the property on that buffer (or is a pruning of such a recording, whose replay-equivalence is the structural discard-noninterference rule); the logged draw is the returned value; 'flaky' is reachable only on a traceback mismatch. Decided on all paths by SSA value identity/provenance; not decided: equality of error values on replay.",
+ "C01": ("one reported buffer: the words returned by doCheck are the words captured, persisted and replayed; every returned (buffer, error) pair was established by executing the property on that buffer (or is a pruning of such a recording, whose replay-equivalence is the structural discard-noninterference rule); the logged draw is the returned value; 'flaky' is reachable only on a traceback mismatch; a rejected attempt is discarded only after the failure flag has been consulted wherever user code ran in it; no sync.Once.Do runs user code (a panic there would be remembered as done and the reproduction would fail differently). Decided on all paths by SSA value identity/provenance; not decided: equality of error values on replay.",
          "SSA value-identity and provenance rules over checkTB/doCheck/shrink/accept; discard-taint dataflow over repeat", "DESIGN.md §3 C01"),
  "C02": ("the path from every failure signal (panic, Fatal*, FailNow, Error*, Fail on any T handed to user code) to TB.Errorf is unbroken on every control-flow path: signal sets flag/panics, every bracket consults the flag after cleanups on every exit (normal, skip, panic), recover sites only convert or filter invalidData, classification and verdict reach a failing TB call. Not decided: fatal calls from foreign goroutines.",
          "typestate/must-pass-through over SSA CFG with defer exit sequences; recover-site census; callback bracket census", "DESIGN.md §3 C02"),
  "C03": ("only the structural part of the generator contracts: every enforcement guard dominates its return (u<=max, filter predicate, regexp re-check), reject and accumulate are exclusive, indices are drawn against the length of what they index, inputs are never stored through, kind tables agree with Go types, every per-draw loop makes bitstream progress or is bounded, every built-in value method reads the stream on every path to a return (the regexp generators excepted: recursion over the syntax tree, not decided), the string byte budget is tested against maxLen itself, Make's kind generator is converted where a named type needs it and is built for (or looked up by) the requested reflect.Type. The arithmetic (integer extremes, floats, UTF-8) is NOT decided.",
          "guard-dominance rules, table agreement via go/types + constant folding, loop census over natural loops", "DESIGN.md §3 C03"),
- "C04": ("noninterference: inside the generation closure nothing but the bitstream, immutable parameters and process-constant configuration can influence a draw; nothing derived from discarded (rejected) bits influences later draws except through the replay-neutral zero-width stop; both stream implementations return exactly what they record, identically masked; the PRNG state is fully re-initialised per test case; prune removes exactly the discarded groups.",
+ "C04": ("noninterference: inside the generation closure nothing but the bitstream, immutable parameters and process-constant configuration can influence a draw; nothing derived from discarded (rejected) bits influences later draws except through the replay-neutral zero-width stop; both stream implementations return exactly what they record, identically masked; the PRNG state is fully re-initialised per test case; prune removes exactly the discarded groups; the recording only grows outside prune (drawn() agrees between recording and replaying streams); a non-fatal failure signalled inside an attempt is consulted before the attempt is discarded, so the verdict does not rest on pruned bits.",
          "nondeterminism census over the VTA call-graph closure; discard-taint dataflow; sibling agreement of drawBits; field-access index", "DESIGN.md §3 C04"),
  "C05": ("the shrinker's current best (rec, err) is written only by accept, only after the candidate compared strictly shortlex-smaller and its execution produced the same traceback, and shrink returns that state; compareData is a shortlex comparator; every pass re-checks the deadline per step; candidates never alias the current best. Strict decrease in a well-founded order gives termination.",
          "guard-dominance and who-may-write rules over SSA; comparator return/guard table; loop-header census", "DESIGN.md §3 C05"),
@@ -31,7 +31,7 @@ P = {
          "field-access index to derive per-case fields; fresh-or-reset classification of bracket call sites", "DESIGN.md §3 C11"),
  "C12": ("NOT the property as a whole (the outcome of a heuristic search over runtime values is not decidable by shape) — only three structural necessary conditions, each of which breaks exact boundaries for some threshold when violated: the boundary's bit band is generable for every bit length (folded guards of the biased integer core); the search is complete in shape (every word offered to minimize, minimize always reaches the binary search for large words and returns the minimiser's best, the binary search moves its ends only on evidence, minimizer.accept lowers best only under u < best and cond(u), every standalone group offered for removal); accepted candidates keep the failure. Correctness of the interval arithmetic and bit heuristics, pass interaction, 'given enough time' and the collection clauses are NOT decided.",
          "interval solving of folded guards for L=1..64; must-pass-through and guard-fact rules over the minimiser's SSA", "DESIGN.md §3 C12"),
- "C13": ("byte→word decoding shape (little-endian, fresh zeroed 8-byte array per word, advance by bytes copied, loop while input remains), the exhaustive three-way verdict mapping nil/invalid/other → pass/Skip/Fatal, totality (every panic converted, loops progress), independence from unread words. Not decided: termination of the user's property.",
+ "C13": ("byte→word decoding shape (little-endian, fresh zeroed 8-byte array per word, advance by bytes copied, loop while input remains), the exhaustive three-way verdict mapping nil/invalid/other → pass/Skip/Fatal, totality (every panic converted, loops progress), independence from unread words, exhaustion stays a skip (no deferred endGroup; Repeat's 'no valid action' failure is reached only through the retry counter). Not decided: termination of the user's property.",
          "SSA shape rules on checkFuzz; exhaustive branch classification; shared overrun/recover/loop rules", "DESIGN.md §3 C13"),
  "C14": ("data-race freedom and atomic read-modify-write of the listed methods by a lock discipline valid for all schedules: every access to failed/cleanups/ctx/cancelCtx happens with T.mu held in the right mode on the same receiver, other fields are immutable after construction or atomic, no callback or re-locking call happens under the lock, Context re-checks under the write lock.",
          "must-hold lock-set dataflow over SSA CFG + field access index + call closure of the safe method set", "DESIGN.md §3 C14"),
